@@ -1,0 +1,54 @@
+//go:build verif
+
+// Contracts for the verification harness in /verif (comment-only; no declarations).
+package common
+
+//@ global-nonnil lastUpdatedCache cacheLock
+//@ global-invariant [C13] forall k string :: has(lastUpdatedCache, k) ==> lastUpdatedCache[k] != nil
+
+//@ func deleteChildren(client, parent, observed, desired) (err)
+//@   requires validClient(client)
+//@   requires forall k string :: has(observed, k) ==> observed[k] != nil
+//@   bind loop 1: name, obj
+//@   noexit loop 1 [C12]
+//@   safety C13
+//@   at Delete(ri, ctx, n, opts) [C02,C06]: has(observed, name) && observed[name] == obj && n == obj.GetName()
+//@   at Delete(ri, ctx, n, opts) [C06]: obj.GetDeletionTimestamp() == nil && (desired == nil || desired[name] == nil)
+//@   at Delete(ri, ctx, n, opts) [C02]: opts.Preconditions != nil && opts.Preconditions.UID != nil && *opts.Preconditions.UID == obj.GetUID()
+//@   at Delete(ri, ctx, n, opts) [C02,C06]: opts.PropagationPolicy != nil && *opts.PropagationPolicy == metav1.DeletePropagationBackground
+//@   at Delete(ri, ctx, n, opts) [C02]: client.Namespaced && obj.GetNamespace() != "" ==> riNamespace(ri) == obj.GetNamespace() && riRoot(ri) == client.rootClient
+
+//@ func ApplyUpdate(orig, update) (newObj, err)
+//@   trusted identity/revert clauses are exercised by the bounded merge harness, not proved by the VC generator
+//@   requires orig != nil && update != nil
+//@   ensures err == nil ==> newObj != nil && fresh(newObj)
+//@   ensures err != nil ==> newObj == nil
+//@   ensures err == nil ==> newObj.GetName() == orig.GetName() && newObj.GetNamespace() == orig.GetNamespace() && newObj.GetUID() == orig.GetUID() && newObj.GetResourceVersion() == orig.GetResourceVersion()
+//@   tags err == nil ==> ufb_applyResult(newObj, orig, update)
+
+//@ func MakeControllerRef(parent) (r)
+//@   requires parent != nil
+//@   safety C13
+//@   ensures [C02] r != nil && r.UID == parent.GetUID() && r.Name == parent.GetName() && r.Kind == parent.GetKind() && r.APIVersion == parent.GetAPIVersion()
+//@   ensures [C02] r.Controller != nil && *r.Controller && r.BlockOwnerDeletion != nil && *r.BlockOwnerDeletion
+
+//@ func updateChildren(client, updateStrategy, parent, observed, desired, ssaOptions) (err)
+//@   requires validClient(client) && ssaOptions != nil && parent != nil && updateStrategy != nil
+//@   requires forall k string :: has(desired, k) ==> desired[k] != nil
+//@   bind loop 1: name, obj
+//@   noexit loop 1 [C12]
+//@   safety C13
+//@   let method = updateStrategy.GetMethod(client.Group, client.Kind)
+//@   let oldObj = observed[name]
+//@   let dyn = ssaOptions.Strategy != ApplyStrategyServerSideApply
+//@   let differs = exists n *unstructured.Unstructured :: ufb_applyResult(n, oldObj, obj) && !deq(n.Object, oldObj.Object)
+//@   at Update(ri, ctx, body, opts) [C06]: dyn && oldObj != nil && oldObj.GetDeletionTimestamp() == nil && (method == v1alpha1.ChildUpdateInPlace || method == v1alpha1.ChildUpdateRollingInPlace)
+//@   at Update(ri, ctx, body, opts) [C01,C06]: ufb_applyResult(body, oldObj, obj) && !deq(body.Object, oldObj.Object)
+//@   at Update(ri, ctx, body, opts) [C02]: body.GetName() == oldObj.GetName() && body.GetNamespace() == oldObj.GetNamespace() && body.GetUID() == oldObj.GetUID() && body.GetResourceVersion() == oldObj.GetResourceVersion()
+//@   at Delete(ri, ctx, n, opts) [C06]: dyn && oldObj != nil && oldObj.GetDeletionTimestamp() == nil && (method == v1alpha1.ChildUpdateRecreate || method == v1alpha1.ChildUpdateRollingRecreate)
+//@   at Delete(ri, ctx, n, opts) [C01,C06]: differs
+//@   at Delete(ri, ctx, n, opts) [C02]: opts.Preconditions != nil && opts.Preconditions.UID != nil && *opts.Preconditions.UID == oldObj.GetUID() && n == obj.GetName()
+//@   at Delete(ri, ctx, n, opts) [C02,C06]: opts.PropagationPolicy != nil && *opts.PropagationPolicy == metav1.DeletePropagationBackground
+//@   at Create(ri, ctx, body, opts) [C01,C02,C06]: dyn && oldObj == nil && body == obj
+//@   at Create(ri, ctx, body, opts) [C02]: ownerLen(body) >= 1 && ownerAt(body, ownerLen(body)-1).UID == parent.GetUID() && ownerAt(body, ownerLen(body)-1).Controller != nil && *ownerAt(body, ownerLen(body)-1).Controller
+//@   at Create(ri, ctx, body, opts) [C02]: ownerAt(body, ownerLen(body)-1).Name == parent.GetName() && ownerAt(body, ownerLen(body)-1).Kind == parent.GetKind() && ownerAt(body, ownerLen(body)-1).APIVersion == parent.GetAPIVersion()
